@@ -32,15 +32,14 @@ BINARY_KEYS = ["hamming", "jaccard", "dice", "matching", "kulsinski", "rogerstan
 
 
 # ---- translation tie (LINKING.md): functions of umap/sparse.py whose CURRENT text is translated to Gallina (py2coq) and proved
-# equal to the model of M_sparse.v for all inputs (coq/link/L_sparse.v); function -> theorem
+# equal to the model of M_sparse.v for all inputs (coq/link/L_sparse.v); function -> theorem.  `norm` is umap.utils.norm, which sparse.py
+# imports (sparse_cosine / sparse_correlation call it): translated from the current umap/utils.py into the same generated file.
 LINKED = {f: "src_%s_eq" % f for f in link.MODULES["sparse"]["functions"]}
 NOT_TRANSLATED = {
     "arr_unique / arr_union / arr_intersect": "np.sort / np.concatenate / boolean-mask indexing are outside the py2coq subset: they are opaque function "
                                               "parameters of the translated kernels (the theorems hold for every function returning a long enough buffer / "
                                               "of the model's length); the real helpers are compared with the model's merges on every run (verdict_index)",
     "sparse_russellrao": "np.all(ind1 == ind2) (array comparison) outside the py2coq subset",
-    "sparse_cosine": "calls umap.utils.norm (cross-module call) outside the py2coq subset",
-    "sparse_correlation": "set(...) / `not in` outside the py2coq subset",
     "sparse_ll_dirichlet": "no closed model; `for d in data` and log_beta's data-dependent range outside the py2coq subset",
 }
 
@@ -382,8 +381,9 @@ def run(ctx):
     lres = link.check(ctx, "sparse", LINKED, NOT_TRANSLATED)
     # capstone corollaries (coq/link/K_sparse.v): the property statement between the two translated sources -- sparse metric of the current
     # sparse.py on canonical rows = dense metric of the current distances.py on the densified vectors (euclidean, manhattan, chebyshev,
-    # hamming, jaccard)
-    for thm in ("C13_src_euclidean", "C13_src_manhattan", "C13_src_chebyshev", "C13_src_hamming", "C13_src_jaccard"):
+    # hamming, jaccard, cosine, correlation; C13_src_correlation_model: the hypotheses on arr_union / arr_intersect hold for the model's merges)
+    for thm in ("C13_src_euclidean", "C13_src_manhattan", "C13_src_chebyshev", "C13_src_hamming", "C13_src_jaccard", "C13_src_cosine",
+                "C13_src_correlation", "C13_src_correlation_model"):
         ob = "link:sparse:" + thm
         ctx.obligations.append(ob)
         bad = [a for a in lres.axioms.get(thm, []) if a not in link.coqrun.ALLOWED_AXIOMS and not ctx._primitive(a)]
